@@ -231,3 +231,18 @@ Definition colens_member_outputs (members : list cmember) (x : instance) : list 
   map (fun m => snd m (select (fst m) x)) members.
 Definition colens_proba (k : nat) (members : list cmember) (x : instance) : list Q :=
   mean_rows k (colens_member_outputs members x).
+
+(* the user's `estimators` list of a column ensemble: an entry is the 'drop' specifier or a
+   classifier with its columns.  An entry that is dropped, or whose column selection is empty, is
+   never fitted: it is not a member (a fitted remainder estimator is one more EClf entry).  The
+   ensemble's probabilities are those of the FITTED members, whatever the length of the list. *)
+Inductive centry := EDrop (cols : list nat) | EClf (cols : list nat) (f : instance -> list Q).
+Definition fitted_members (spec : list centry) : list cmember :=
+  flat_map (fun e => match e with
+                     | EDrop _ => []
+                     | EClf [] _ => []
+                     | EClf (c :: cs) f => [(c :: cs, f)]
+                     end) spec.
+Definition colens_spec_proba (k : nat) (spec : list centry) (x : instance) : list Q :=
+  colens_proba k (fitted_members spec) x.
+
